@@ -256,6 +256,8 @@ def main():
             cases.append({'kind': 'multi-file', 'cls': 'undefined-type', 'detail': 'in ext_%s, order %s' % (badn, ''.join(order)), 'planted': 'zq_missing_in_' + badn, 'name': 'files', 'text': main,
                           'extra_files': {'ext_%s.exp' % n: ext(n, n == badn) for n in 'abc'}, 'expect_file': 'ext_%s.exp' % badn})
     cases += list(catalogue())
+    for name, text, planted in gfam.duplicate_kinds():
+        cases.append({'kind': 'catalogue', 'cls': 'duplicate-declaration', 'expect': ['DUPLICATE_DECL'], 'detail': name, 'planted': planted, 'name': 'dupkinds', 'text': text})
     results = common.pmap(run_case, cases, chunksize=8)
     for c, res in zip(cases, results):
         chk.count(states=1, transitions=1)
@@ -278,7 +280,13 @@ def main():
             chk.outcome(kp.split('/')[0])
             chk.violation('%s/%s' % (PID, kp), what, dict(c))
     # ---- warning switches
-    wschemas = [('warn', WARN), ('downcast', DOWNCAST), ('ks', gfam.KS)]
+    # an entity with several supertypes that mentions attributes inherited from each of them (bare, through SELF, in DERIVE and WHERE): every mention is
+    # of an INHERITED attribute, nothing is cast down - any 'downcast' warning names an entity that has nothing to do with one
+    MI_INHERITED = ('SCHEMA mi_inh;\nENTITY s1; a1 : REAL; END_ENTITY;\nENTITY s2; a2 : REAL; END_ENTITY;\nENTITY s3; a3 : REAL; END_ENTITY;\n'
+                    'ENTITY m SUBTYPE OF (s1, s2, s3); own : REAL;\n DERIVE\n  d1 : REAL := a1 + a2 + a3 + own;\n  d2 : REAL := SELF.a3 + SELF.a2 + SELF.a1;\n'
+                    ' WHERE\n  w1 : a2 > 0.0;\n  w2 : SELF.a3 > a1;\n  w3 : SELF\\s2.a2 > SELF\\s3.a3;\nEND_ENTITY;\n'
+                    'ENTITY n SUBTYPE OF (m); deep : REAL;\n WHERE\n  w1 : a3 + a2 + a1 + own + deep > 0.0;\nEND_ENTITY;\nEND_SCHEMA;\n')
+    wschemas = [('warn', WARN), ('downcast', DOWNCAST), ('ks', gfam.KS), ('mi_inherited', MI_INHERITED)]
     want = ('unique_qualifiers', 'select_lookup_enum', 'aggregate_index_attr', 'ap203/ap203.exp', 'pdm_schema') + (('ap209', 'ap210e3', 'ap239') if args.tier == 'thorough' else ())
     for nm, p in gfam.shipped():
         if any(k in nm for k in want):
@@ -355,6 +363,38 @@ def main():
                 chk.violation('%s/switch/pair-not-union/%s' % (PID, cls), '-w %s -w %s is not the union of the two' % (c1, c2), dict(c, text=c['text'][:3000]))
                 bad = True
         chk.outcome('switch-invariant' if not bad else 'switch-violation')
+    for l in sorted(warns(allw['mi_inherited'])):
+        if re.search(CLASS_WORDING['downcast'], l):
+            chk.violation('%s/spurious-warning/downcast/inherited-attribute' % PID, 'an attribute inherited from a supertype is mentioned, the front end warns: %s' % l.strip()[-120:],
+                          {'kind': 'switch', 'name': 'mi_inherited', 'cls': 'all', 'text': MI_INHERITED, 'args': ['-w', 'all']})
+    # several -i switches on one command line: each one is honoured (the result is -w all minus the lines of every named class)
+    pair_jobs = []
+    for nm, text in wschemas:
+        WA = warns(allw[nm])
+        eff = [c for c in classes if WA - warns(runs[(nm, c, '-i')][1])]
+        others = [c for c in classes if c not in eff][:1]
+        for c1 in eff:
+            for c2 in eff + others:
+                if c1 != c2:
+                    pair_jobs.append({'kind': 'switch', 'cls': c1 + '+' + c2, 'flag': '-i-i', 'name': nm, 'text': text, 'args': ['-w', 'all', '-i', c1, '-i', c2]})
+                    pair_jobs.append({'kind': 'switch', 'cls': c2 + '+' + c1, 'flag': '-i-i', 'name': nm, 'text': text, 'args': ['-w', 'all', '-i', c2, '-i', c1]})
+    seenp = set()
+    pair_jobs = [j for j in pair_jobs if (j['name'], tuple(j['args'])) not in seenp and not seenp.add((j['name'], tuple(j['args'])))]
+    for c, r in zip(pair_jobs, common.pmap(run_case, pair_jobs, chunksize=4)):
+        chk.count(states=1, transitions=1)
+        chk.cls('switch/-i-i')
+        nm = c['name']
+        c1, c2 = c['args'][3], c['args'][5]
+        WA = warns(allw[nm])
+        exp = WA - (WA - warns(runs[(nm, c1, '-i')][1])) - (WA - warns(runs[(nm, c2, '-i')][1]))
+        if r['rc'] != base[nm]['rc'] or errs(r) != errs(base[nm]):
+            chk.violation('%s/switch/verdict-changed/-i-i/%s' % (PID, c['cls']), 'verdict or ERROR lines change with %s on %s' % (' '.join(c['args']), nm), dict(c, text=c['text'][:3000]))
+        elif warns(r) != exp:
+            chk.outcome('switch-violation')
+            chk.violation('%s/switch/two-ignores-not-both-honoured' % PID, 'on %s: %s prints %d warning line(s), -w all minus both classes has %d (first -i lost: %s, second lost: %s)' % (
+                nm, ' '.join(c['args']), len(warns(r)), len(exp), bool(warns(r) & (WA - warns(runs[(nm, c1, '-i')][1]))), bool(warns(r) & (WA - warns(runs[(nm, c2, '-i')][1])))), dict(c, text=c['text'][:3000]))
+        else:
+            chk.outcome('switch-invariant')
     # the classes partition -w all (no warning outside every named class changes, none belongs to two classes)
     for nm, _ in wschemas:
         seen = {}
